@@ -147,6 +147,23 @@ func (e *dimEnv) fieldRootDim(v ssa.Value) (dim, bool) {
 		case *ssa.Alloc:
 			// local struct/array: dimension of what is stored into it
 			return e.allocDim(x), true
+		case *ssa.FreeVar:
+			// a variable of the enclosing function captured by a function literal: its cell there
+			fn := x.Parent()
+			mc, ok := makeClosureOf(fn).(*ssa.MakeClosure)
+			if !ok {
+				return dimUnk, true
+			}
+			var bind ssa.Value
+			for k, fv := range fn.FreeVars {
+				if fv == x && k < len(mc.Bindings) {
+					bind = mc.Bindings[k]
+				}
+			}
+			if bind == nil {
+				return dimUnk, true
+			}
+			v = bind
 		default:
 			return e.of(v), true
 		}
@@ -974,6 +991,8 @@ func handedBackThroughPhi(phi *ssa.Phi, d int) bool {
 }
 
 func runC19Pair(c *Ctx) {
+	pathInlineClosures = true
+	defer func() { pathInlineClosures = false }()
 	for _, p := range cartoProjections(c) {
 		collect := func(f *ssa.Function) map[string]ssa.Value {
 			arg := f.Params[1]
@@ -1217,6 +1236,108 @@ func runC19Angle(c *Ctx) {
 				}
 			})
 			c.Check(bad == "", firstValid(pos, f.Pos()), fn, "degrees reach trigonometric functions only through dtor", "every trig argument is free of unconverted degree values", bad)
+		}
+		// Reverse hands back degrees: no ordinate of a returned XY is a radian value
+		// (a result of dtor or of an inverse trigonometric function, or a field that
+		// stores one, combined by + - only) that did not pass through rtod / rtodxy
+		radField := map[*types.Var]bool{}
+		radCall := map[string]bool{"carto.dtor": true, "carto.asin": true, "carto.acos": true, "carto.atan": true, "carto.atan2": true, "math.Asin": true, "math.Acos": true, "math.Atan": true, "math.Atan2": true}
+		var carriesRad func(v ssa.Value, d int) bool
+		carriesRad = func(v ssa.Value, d int) bool {
+			if d > 8 {
+				return false
+			}
+			// a load of a radian field
+			cur := v
+			for k := 0; k < 6; k++ {
+				switch x := cur.(type) {
+				case *ssa.UnOp:
+					if x.Op == token.MUL {
+						cur = x.X
+						continue
+					}
+				case *ssa.FieldAddr:
+					if fv := fieldVar(x.X.Type(), x.Field); fv != nil && radField[fv] {
+						return true
+					}
+				case *ssa.Field:
+					if fv := fieldVar(x.X.Type(), x.Field); fv != nil && radField[fv] {
+						return true
+					}
+				}
+				break
+			}
+			switch x := stripLoad(v).(type) {
+			case *ssa.Call:
+				return radCall[calleeName(x)]
+			case *ssa.BinOp:
+				if x.Op == token.ADD || x.Op == token.SUB {
+					return carriesRad(x.X, d+1) || carriesRad(x.Y, d+1)
+				}
+				if x.Op == token.MUL || x.Op == token.QUO {
+					if k, ok := smallIntConst(x.Y); ok && k != 0 {
+						return carriesRad(x.X, d+1)
+					}
+				}
+			case *ssa.UnOp:
+				if x.Op == token.SUB {
+					return carriesRad(x.X, d+1)
+				}
+			case *ssa.Phi:
+				for _, e := range x.Edges {
+					if carriesRad(e, d+1) {
+						return true
+					}
+				}
+			}
+			return false
+		}
+		for _, m := range p.methods {
+			if m == p.forward || m == p.reverse {
+				continue
+			}
+			eachInstr(m, func(in ssa.Instruction) {
+				st, ok := in.(*ssa.Store)
+				if !ok {
+					return
+				}
+				if fa, ok := st.Addr.(*ssa.FieldAddr); ok && isFloat(st.Val.Type()) {
+					if fv := fieldVar(fa.X.Type(), fa.Field); fv != nil && fv.Pkg() != nil && fv.Pkg().Name() == "carto" && carriesRad(st.Val, 0) {
+						radField[fv] = true
+					}
+				}
+			})
+		}
+		if p.reverse != nil {
+			bad := ""
+			var pos token.Pos
+			for _, r := range returnsOf(p.reverse) {
+				if len(r.Results) != 1 {
+					continue
+				}
+				ld, ok := r.Results[0].(*ssa.UnOp)
+				if !ok || ld.Op != token.MUL {
+					continue
+				}
+				al, ok := ld.X.(*ssa.Alloc)
+				if !ok {
+					continue
+				}
+				for _, ref := range *al.Referrers() {
+					fa, ok := ref.(*ssa.FieldAddr)
+					if !ok {
+						continue
+					}
+					for _, rr := range *fa.Referrers() {
+						if st, ok := rr.(*ssa.Store); ok && st.Addr == ssa.Value(fa) && st.Block().Dominates(r.Block()) && carriesRad(st.Val, 0) {
+							vs, _ := accessPath(st.Val)
+							bad = "the ordinate " + trunc(vs) + " returned at " + c.P.Pos(r.Pos()) + " is in radians (it comes from dtor / an inverse trigonometric function and does not pass through rtod): Reverse must hand back degrees"
+							pos = st.Pos()
+						}
+					}
+				}
+			}
+			c.Check(bad == "", firstValid(pos, p.reverse.Pos()), FuncName(p.reverse), "Reverse returns degrees", "no returned ordinate is an unconverted radian value", bad)
 		}
 	}
 }
